@@ -231,8 +231,17 @@ def tree_new(it, a, k):
     return new(it, TREE, {"dom": EMPTY_DOM, "sha": EMPTY_SHA, "mode": EMPTY_MODE})
 
 
+def self_hash_fact(it, tid_t):
+    """A tree id is the hash of the entries it denotes (the other direction of TH's injectivity)."""
+    key = ("selfhash", _tid(tid_t))
+    if key not in it.path.memo:
+        it.path.memo[key] = True
+        it.path.assume(z3.Implies(KIND(tid_t) == 2, TH(TH_dom(tid_t), TH_sha(tid_t), TH_mode(tid_t)) == tid_t))
+
+
 def tree_from_id(it, tid_t):
     canonical_fact(it, TH_dom(tid_t), TH_sha(tid_t), TH_mode(tid_t))
+    self_hash_fact(it, tid_t)
     return new(it, TREE, {"dom": TH_dom(tid_t), "sha": TH_sha(tid_t), "mode": TH_mode(tid_t)})
 
 
@@ -714,6 +723,7 @@ def install(reg):
         head = f["head"]
         tid = COMMIT_TREE(head.val.t)
         canonical_fact(it, TH_dom(tid), TH_sha(tid), TH_mode(tid))
+        self_hash_fact(it, tid)
         dom = z3.If(head.isnone, EMPTY_DOM, TH_dom(tid))
         sha = z3.If(head.isnone, EMPTY_SHA, TH_sha(tid))
         mode = z3.If(head.isnone, EMPTY_MODE, TH_mode(tid))
